@@ -35,7 +35,8 @@ Definition lit """, 1)
 
 def gen_literals(rng, n):
     """(text, precision, (y,m,d,H,M,S), separator, quoted)"""
-    dates = [(2024, 2, 29), (2023, 12, 31), (2024, 1, 1), (2024, 3, 1), (1970, 1, 2), (2000, 2, 29), (2023, 2, 28), (2038, 1, 19), (1999, 12, 31)]
+    dates = [(2024, 2, 29), (2023, 12, 31), (2024, 1, 1), (2024, 3, 1), (1970, 1, 2), (2000, 2, 29), (2023, 2, 28), (2038, 1, 19), (1999, 12, 31),
+             (1969, 12, 31), (1970, 1, 1), (1960, 2, 29)]        # entry times before the epoch are negative time_t values
     out = []
     seen = set()
     # always present: the unquoted spellings a user types (every combination of padded / unpadded month and day, both separators)
@@ -62,7 +63,7 @@ def gen_literals(rng, n):
             t += ":" + f2(M)
         if prec == "second":
             t += ":" + f2(S)
-        quoted = not (prec == "day" and rng.random() < 0.5)
+        quoted = not (prec == "day" and rng.random() < 0.5) or y < 1970      # the lexer reads an unquoted date only from 1970 on
         if (t, quoted) in seen:
             continue
         seen.add((t, quoted))
@@ -112,13 +113,13 @@ def run(ctx):
         a, b = (f * 86400, f * 86400 + 86399) if prec == "rel" else interval(prec, f)
         ivs[(text, quoted)] = (a, b)
         for t in (a - 1, a, a + 1, b - 1, b, b + 1):
-            if t >= 0:
-                grid.add(t)
+            grid.add(t)
     grid = sorted(grid)
     if ctx.tier == "quick" and len(grid) > 140:
         keep = set(rng.sample(grid, 140))
         for (a, b) in list(ivs.values())[:8]:
-            keep.update(t for t in (a - 1, a, b, b + 1) if t >= 0)
+            keep.update(t for t in (a - 1, a, b, b + 1))
+        keep.update(t for t in grid if t < 86400 * 2)          # the entries around and before the epoch are always kept
         grid = sorted(keep)
     d = os.path.join(ctx.scratch, "dt")
     os.mkdir(d)
@@ -127,7 +128,7 @@ def run(ctx):
         open(p, "w").close()
         # every other file carries a sub-second part (as a real mtime does): the column shows, and the comparison is made on,
         # the whole second, so a file modified at 23:59:59.5 still lies ON that day
-        frac = [0, 500000000, 999999999, 1][grid.index(t) % 4] if t >= 0 else 0
+        frac = [0, 500000000, 999999999, 1][grid.index(t) % 4]
         os.utime(p, ns=(t * 1000000000 + frac, t * 1000000000 + frac))
     names = {"f%d" % t: t for t in grid}
     # the modified column
@@ -240,7 +241,7 @@ def run(ctx):
         ctx.notes.append("harness: fallback-binary-only (%s)" % str(e)[:200])
     ctx.coverage.update(
         evaluations=st["evaluations"], distinct_nontrivial=len(st["distinct"]), traces_validated_against_impl=st["agreed"],
-        rule="files whose mtimes lie on the grid a-1, a, a+1, b-1, b, b+1 (three in four with a sub-second part .5, .999999999 or .000000001) around every literal's interval [a, b] (leap day, month/year ends, epoch, 2038) x literals at day/hour/minute/second precision with '-' and ':' separators, with and without leading zeros in month/day/hour/minute/second, quoted and unquoted, plus today/yesterday/+N/-N against the date read at run time x the eight comparison operators, TZ=UTC; rows vs interval arithmetic in Z (spec) and vs model.Datetime + the regenerated comparison table; `modified` text vs format_datetime; parse_datetime outcome classes through the harness on malformed strings. non-trivial = a comparison selecting a proper non-empty subset of the %d files" % len(grid),
+        rule="files whose mtimes lie on the grid a-1, a, a+1, b-1, b, b+1 (three in four with a sub-second part .5, .999999999 or .000000001) around every literal's interval [a, b] (leap day, month/year ends, the epoch and days before it - negative time_t -, 2038) x literals at day/hour/minute/second precision with '-' and ':' separators, with and without leading zeros in month/day/hour/minute/second, quoted and unquoted, plus today/yesterday/+N/-N against the date read at run time x the eight comparison operators, TZ=UTC; rows vs interval arithmetic in Z (spec) and vs model.Datetime + the regenerated comparison table; `modified` text vs format_datetime; parse_datetime outcome classes through the harness on malformed strings. non-trivial = a comparison selecting a proper non-empty subset of the %d files" % len(grid),
         samples=st["samples"], distribution=dict(st["hist"]))
     return ctx.finish(trusted=["local time is modelled under a fixed UTC offset (checks run with TZ=UTC); the tz database / DST and chrono_english free-form dates are outside the model",
                                "the clock (`today`) is read by the check at run time and handed to the model as a parameter"])
